@@ -15,6 +15,7 @@ import (
 
 	sdkmath "cosmossdk.io/math"
 	abci "github.com/cometbft/cometbft/abci/types"
+	cmtproto "github.com/cometbft/cometbft/proto/tendermint/types"
 	codectypes "github.com/cosmos/cosmos-sdk/codec/types"
 	sdk "github.com/cosmos/cosmos-sdk/types"
 	banktypes "github.com/cosmos/cosmos-sdk/x/bank/types"
@@ -604,6 +605,15 @@ func (e *execState) runBlock(bi int, blk *Block, prev *Snap) (*blockObs, bool) {
 	if e.opt.BankFailEnum && (e.opt.EnumAll || uint64(e.s.Seed)%3 == 0) && res.Stats.Probes["enum_blocks"] < maxInt(e.opt.MaxEnumBlocks, 1) {
 		e.enumBankFail(bi, blk, txBytes, prev)
 	}
+	if faultOf(blk, FDiscarded) != nil {
+		// operations that are executed and then rolled back must leave no trace: a governance parameter
+		// change and an allow-list change are run on a branch of the state that is thrown away (what
+		// happens to a proposal whose later message fails, or to another module's transaction that fails
+		// after calling the keeper), and the block's own transactions plus an unsigned authority message
+		// are run through Simulate (gas estimation executes the message handlers on a discarded branch)
+		e.discardedNoise(n, blk, txBytes)
+		res.Stats.Faults[FDiscarded]++
+	}
 	if faultOf(blk, FCheckTx) != nil {
 		// mempool traffic: CheckTx of the block's own transactions (and of garbage) runs on the check
 		// state and must not influence what FinalizeBlock does
@@ -996,7 +1006,7 @@ func (e *execState) needWitness(mprev *Model, cur *Snap) bool {
 			lhs := new(big.Int).Mul(big.NewInt(a.LastMatched-curLen), decUnit)
 			rhs := new(big.Int).Mul(a.ExtRate, big.NewInt(a.LastMatched))
 			d := new(big.Int).Sub(lhs, rhs)
-			if d.Sign() != 0 && new(big.Int).Abs(d).Cmp(big.NewInt(a.LastMatched)) < 0 {
+			if d.Sign() < 0 && new(big.Int).Lsh(new(big.Int).Neg(d), 1).Cmp(big.NewInt(a.LastMatched)) < 0 {
 				return true
 			}
 		}
@@ -1091,4 +1101,43 @@ func consensusBytes(r *abci.ResponseFinalizeBlock) []byte {
 	}
 	b, _ := c.Marshal()
 	return b
+}
+
+func (e *execState) discardedNoise(n *Node, blk *Block, txBytes [][]byte) {
+	func() {
+		defer func() { _ = recover() }()
+		var base sdk.Context
+		if n.Fresh {
+			base = n.App.BaseApp.NewContextLegacy(false, cmtproto.Header{Height: n.Height + 1, Time: tUTC(n.LastT), ChainID: ChainID})
+		} else {
+			base = n.App.BaseApp.NewUncachedContext(false, cmtproto.Header{Height: n.Height + 1, Time: tUTC(n.LastT), ChainID: ChainID})
+		}
+		cctx, _ := base.CacheContext() // never written back
+		k := n.App.FundraisingKeeper
+		noise := types.Params{AuctionCreationFee: sdk.NewCoins(sdk.NewInt64Coin("stake", 77)), PlaceBidFee: sdk.NewCoins(sdk.NewInt64Coin("stake", 13), sdk.NewInt64Coin("upay", 5)), ExtendedPeriod: 9}
+		_, _ = keeper.NewMsgServerImpl(k).UpdateParams(cctx, &types.MsgUpdateParams{Authority: n.govAuthority(), Params: noise})
+		for id := uint64(0); id < 3; id++ {
+			_ = k.AddAllowedBidders(cctx, id, []types.AllowedBidder{{AuctionId: id, Bidder: e.actors[0].Bech, MaxBidAmount: sdkmath.NewInt(1)}})
+			_ = k.UpdateAllowedBidder(cctx, id, e.actors[len(e.actors)-1].Addr, sdkmath.NewInt(1))
+		}
+	}()
+	for _, tb := range txBytes {
+		func() {
+			defer func() { _ = recover() }()
+			_, _, _ = n.App.Simulate(tb)
+		}()
+	}
+	// an unsigned authority message: simulation does not verify signatures
+	func() {
+		defer func() { _ = recover() }()
+		txb := n.TxCfg.NewTxBuilder()
+		noise := types.Params{AuctionCreationFee: sdk.NewCoins(sdk.NewInt64Coin("stake", 55)), PlaceBidFee: sdk.NewCoins(sdk.NewInt64Coin("stake", 21)), ExtendedPeriod: 5}
+		if err := txb.SetMsgs(&types.MsgUpdateParams{Authority: n.govAuthority(), Params: noise}); err != nil {
+			return
+		}
+		txb.SetGasLimit(1_000_000_000)
+		if bz, err := n.TxCfg.TxEncoder()(txb.GetTx()); err == nil {
+			_, _, _ = n.App.Simulate(bz)
+		}
+	}()
 }
